@@ -21,6 +21,34 @@ Definition oracle_ext (O : oracle) : Prop :=
      end) /\
   (forall i args s s', seq2 s s' -> o_next O i args s = o_next O i args s').
 
+(* ---- the meaning of the read-only annotation of `invoke` operands.
+   Two invokes that differ only in annotated operands behave alike when, for every such operand, the first sz bytes behind
+   the two pointers are equal and no operand the callee may write through (annotation None) points into the allocation
+   of the new pointer (for a new pointer into region None -- a parameter of the caller or a concrete address -- this
+   non-aliasing is ASSUMED: see notes/C14-copypasses.md).  What justifies it: the callee reads the parameter only (checked
+   syntactically on its body by the tie) and observes at most the bytes the front end staged for it. *)
+Definition step_rel (a b : option (list Z * mem * Z * Z)) : Prop :=
+  match a, b with
+  | Some (o, m, r, w), Some (o', m', r', w') => o = o' /\ meq m m' /\ r = r' /\ w = w'
+  | None, None => True
+  | _, _ => False
+  end.
+Definition same_but_args (i i' : inst) : Prop :=
+  i_op i = i_op i' /\ i_outs i = i_outs i' /\ i_wm i = i_wm i' /\ i_wrd i = i_wrd i' /\ i_id i = i_id i' /\ i_ann i = i_ann i'.
+Fixpoint args_rel (s : state) (all' : list val) (all_ann : list (option operand)) (a a' : list val) (ann : list (option operand)) : Prop :=
+  match a, a', ann with
+  | [], [], [] => True
+  | v :: r, v' :: r', an :: rn =>
+      (v = v' \/ exists sz n, an = Some sz /\ oval s sz = Some (None, n) /\
+                 (forall j, 0 <= j < n -> smem s (fst v) (snd v + j) = smem s (fst v') (snd v' + j)) /\
+                 (fst v' <> None -> forall q vq, nth_error all_ann q = Some None -> nth_error all' q = Some vq -> fst vq <> fst v'))
+      /\ args_rel s all' all_ann r r' rn
+  | _, _, _ => False
+  end.
+Definition ro_uniform (O : oracle) : Prop :=
+  forall i i' a a' s s', seq2 s s' -> i_op i = "invoke" -> same_but_args i i' ->
+    args_rel s a' (i_ann i) a a' (i_ann i) -> step_rel (o_step O i a s) (o_step O i' a' s').
+
 Lemma meq_refl m : meq m m. Proof. intros t a. reflexivity. Qed.
 Lemma seq2_refl s : seq2 s s. Proof. repeat split; auto using meq_refl. Qed.
 Lemma meq_trans a b c : meq a b -> meq b c -> meq a c.
